@@ -27,7 +27,7 @@ def fingerprint(case, d):
 def run(rep, tier, seed):
     N = 2 if tier == "quick" else 3
     inv = ["RoundTrip", "Stationary", "ByName", "NoArrayByValueInTdm", "ByValueOutsideTdm", "PNamesNotParams", "TemplateOnlyWithBraces", "DataKept", "RoundTripVars"]
-    cases = loadcheck.explore(rep, "MC_C15", N, metas="TdmMetas", items="TdmItems", emit=False, invariants=inv, props=[],
+    cases = loadcheck.explore(rep, "MC_C15", N, metas="TdmMetas", items="TdmItems", prelude="TdmPre", emit=False, invariants=inv, props=[],
                               extra_consts="CONSTRAINT EmitRT\n", label="MC_C15 tdm scripts up to %d items (2 tdm metadata variants + control)" % N)
     for c in cases:
         c["gens"] = 2
